@@ -6,6 +6,7 @@ require (
 	github.com/golang/protobuf v1.4.3
 	github.com/gorilla/websocket v1.4.1
 	github.com/hashicorp/memberlist v0.2.2
+	github.com/vx-labs/cluster v1.7.10
 	github.com/vx-labs/commitlog v1.2.4
 	github.com/vx-labs/mqtt-protocol v5.1.1+incompatible
 	github.com/vx-labs/wasp/v4 v4.0.0
